@@ -48,7 +48,13 @@ def jobs_for(tier, seed):
     # plain files only (every blob above the combined threshold): open(O_TMPFILE) write linkat close, one after the other
     files = mkjob(7, dict(lin, thr=1024), [{"kind": "put", "a": a} for a in (1, 2, 3, 4, 5, 6)] + [{"kind": "del", "a": 3}, {"kind": "put", "a": 3}, {"kind": "put", "a": 7}],
                   [5000, 9000, 1500, 70000, 2500, 4000, 1100], 35)
-    out = [("combined-mixed", j1), ("combined-size", j2), ("generic", gen), ("linux-files", files), ("many-concurrent", many)]
+    # REAL short writev in the middle of a timed batch (worker op "torn": soft RLIMIT_FSIZE lowered for one Put so that
+    # the kernel cuts the record inside its data / inside its 38-byte prefix); the timer never fires (60 s), Close flushes
+    torn = mkjob(6, dict(lin, cnt=128, szlim=8 << 20, interval=60000),
+                 [{"kind": "torn", "as": [1, 2, 3], "cut": 138}, {"kind": "torn", "as": [4, 5, 6], "cut": 20}],
+                 [1500, 1200, 700, 900, 2500, 300], 36)
+    out = [("combined-mixed", j1), ("combined-size", j2), ("generic", gen), ("linux-files", files), ("torn-batch", torn),
+           ("many-concurrent", many)]
     if tier == "thorough":
         r = random.Random(seed * 104729 + 13)
         for i in range(4):
@@ -110,7 +116,7 @@ def run(ck):
                 # that fires before the start marker is discarded, several threads reaching k give several faults
                 ks = list(range(1, counts["_max_per_thread"].get(c, 0) + 1))
                 span[c] = ks
-                cap = (40 if thorough else 6) if tag == "many-concurrent" else (400 if thorough else 14)
+                cap = (40 if thorough else 6) if tag in ("many-concurrent", "torn-batch") else (400 if thorough else 14)
                 if len(ks) > cap:
                     step = len(ks) / float(cap)
                     ks = sorted({ks[int(i * step)] for i in range(cap)} | {ks[-1]})
@@ -197,7 +203,7 @@ def run(ck):
             raise vkit.Infra("trace rejected for a reason that is not a verdict (%s %s) in run %s at %s\n%s"
                              % (v.kind, v.name, tag, json.dumps(e)[:500], vkit.tail(v.out, 2500)))
     ck.assumptions += [
-        "faults are errors returned by the system call with no side effect (strace error injection: the call is not executed); short writes are modelled (incomplete write) but not injected",
+        "faults are errors returned by the system call with no side effect (strace error injection: the call is not executed); short writes are real: one job lowers RLIMIT_FSIZE so that the kernel cuts a writev in the middle of a batch record",
         "a fault that lands on a call of the Go runtime or of the harness (not on a tree file) is discarded, not judged",
         "hang = the worker's watchdog (60-90 s) fired; panic = exit status 2",
         "`affected` = the operation's own call failed, or a call on the batch file it was written to, or (open of a new batch) one operation per failed open",
